@@ -3,14 +3,17 @@
 Tie: T - on every run driver/translate/c10_depth.py re-reads from the working tree (a) the junction chain, every
 `_*_contour_line` method, the `np.piecewise` table of `local_depth` and the statement list of `_enumerate_contour_points`
 of `GenericElongationGroove`, (b) `Roll.contour_points / surface_x / surface_z / surface_y`, the axes handed to `interpn`
-in `Roll.surface_interpolation`, (c) the centring / half-width / width / usable-width / depth terms and the step order of
-`SplineGroove.__init__`, (d) `SymmetricRollPass.entry_point` into lean/PyrollModel/Gen/C10.lean; the theorems of
+in `Roll.surface_interpolation`, (c) the centring / half-width / width / usable-width / depth terms, the step order of
+`SplineGroove.__init__` and what each step does to the identity of the vertex array (`ArrOp`: asarray / view / copy /
+in-place write / store), (d) `SymmetricRollPass.entry_point` into lean/PyrollModel/Gen/C10.lean; the theorems of
 lean/PyrollProps/C10.lean are about these generated tables run by the hand-written model lean/PyrollModel/GrooveRep.lean.
 K - the Float run of the model is compared with the real objects: junction chain and contour-line methods against the
 groove's attributes/methods, the model's contour polyline against `groove.contour_points` vertex by vertex, the model's
 depth function against `groove.local_depth` on 50 abscissae (junctions +- 1 ulp), `surface_x`, grid nodes and (bi)linear
-interpolation against the real roll, the spline model (stripping, centring, width, usable width, depth, interp1) against
-real `SplineGroove`s, the closed formulas against the python functions on stubs.
+interpolation against the real roll (whichever way its radius was given; `min_radius` / `max_radius` through the translated
+hooks), the spline model (stripping, centring, width, usable width, depth, interp1; whether the groove's array shares
+memory with the caller's and whether the constructor wrote into it) against real `SplineGroove`s built from lists, tuples,
+float64 arrays and views, the closed formulas against the python functions on stubs.
 The independent oracle checks the property text on the real objects (see `_oracle_*`).
 """
 import math
@@ -28,12 +31,18 @@ RULE = ("(a) grooves of every parametric class (20 classes, feasible catalogue p
         "3 decades, one parameter jittered +-3 %) and directly constructed GenericElongationGroove trapezoids with fillets "
         "(closure computed), pad angle 0 / 30 deg / random 1..44 deg, GROOVE_RADIUS_POINT_COUNT 2..30 or the default; 50 query "
         "abscissae per groove: every junction z0..z7 exactly and +-1 ulp on both sides of the centre, 0, and uniform inside "
-        "the groove; (b) rolls on these grooves with nominal radius log-uniform 1.2..100 x the groove size, contact length "
+        "the groove; (b) rolls on these grooves with the radius at the highest point of the groove log-uniform 1.2..100 x the "
+        "groove size, given as nominal_radius / nominal_diameter / explicit max_radius below or above the nominal radius / "
+        "max_radius alone, contact length "
         "log-uniform 1e-3..0.9 of the minimal radius or absent, ROLL_SURFACE_DISCRETIZATION_COUNT 2..24 or the default; query "
         "points inside the grid: nodes, nodes +- 1 ulp, uniform; (c) spline polylines: symmetric and asymmetric, with and "
         "without horizontal face runs, with and without contacts with the face line in between, 3..12 interior vertices, lengths log-uniform, refined by 1..30 collinear insertions "
-        "(all segments / left flank only / one segment only / face runs, parameter uniform or clustered at a vertex). "
-        "non-trivial = pad angle != 0, a changed sample count, a contact length, or a refinement; distinct by rounded inputs.")
+        "(all segments / left flank only / one segment only / face runs, parameter uniform or clustered at a vertex), handed over "
+        "as list / tuple / float64 ndarray / non-contiguous float64 view; in half of the cases the caller goes on using its "
+        "container (1..5 operations: rescale ordinates or everything, shift, mirror the ordinates, build the next family member "
+        "from it, zero it) and every groove built so far is looked at again afterwards. "
+        "non-trivial = pad angle != 0, a changed sample count, a contact length, a radius not given as nominal_radius, a "
+        "refinement, or a reuse sequence; distinct by rounded inputs.")
 ASSUMPTIONS = [
     "scipy.interpolate.interp1d (linear, extrapolating) and interpn (linear) are modelled as (bi)linear interpolation "
     "(tensor product of two 1-D interpolations); the model is compared with scipy on every generated roll / spline (rtol 1e-9)",
@@ -44,6 +53,10 @@ ASSUMPTIONS = [
     "Params (radii >= 0, arcs graphs over z, flank closes at z4) and Ordered (z7 <= z6 <= ... <= z0) are hypotheses of the groove "
     "theorems; they are checked on every generated generic groove (closure is what the constructors' solvers establish - C04)",
     "that the surface_x grid is strictly ascending is a hypothesis of the interpolation theorems (scipy demands it)",
+    "ownership of the spline groove's vertex array is modelled at the level of array identity (np.asarray passes a float64 "
+    "ndarray through, basic slicing = view, mask indexing / .copy() = fresh array, augmented assignment writes in place); that "
+    "interp1d, LineString and Polygon copy their input is trusted (the oracle looks at these representations after the caller "
+    "reused its array)",
 ]
 
 RTOL = 1e-8          # see ASSUMPTIONS: rounding only, relative to the size of the object
@@ -92,6 +105,15 @@ CORPUS_SPLINES = [
     {"points": [[0, 0], [1, 1], [2, 0], [3, 1], [4, 0]], "refined": [[0, 0], [0.5, 0.5], [1, 1], [2, 0], [3, 1], [4, 0]]},
     {"points": [[0, 0], [1, 1], [2, 0.5], [3, 0], [4, 0.5], [5, 0], [6, 1], [7, 0]], "refined": None},
     {"points": [[-2, 0], [-1, 0], [0, 1], [1, 0], [2, 0]], "refined": [[-2, 0], [-1.5, 0], [-1, 0], [0, 1], [0.5, 0.5], [1, 0], [2, 0]]},
+]
+# operation sequences on the caller's side: a family of grooves of decreasing depth produced from one working array (each
+# member is looked at after the whole family exists), the same from a list, a non-contiguous view that is shifted afterwards
+CORPUS_SEQUENCES = [
+    {"points": [[-3, 0], [-1, 0], [0, 1.5], [2, 3], [6, 3], [8, 1.5], [9, 0], [12, 0]], "refined": None, "input": "ndarray",
+     "reuse": [["scale-y", 0.8], ["rebuild"], ["scale-y", 0.6], ["rebuild"]]},
+    {"points": [[0, 0], [1, 2], [5, 1], [6, 0]], "refined": None, "input": "ndarray-view",
+     "reuse": [["shift-x", 3.0], ["scale", 2.0], ["rebuild"], ["zero"]]},
+    {"points": [[0, 0], [1, 2], [5, 1], [6, 0]], "refined": None, "input": "list", "reuse": [["reverse-y"], ["rebuild"]]},
 ]
 
 
@@ -217,7 +239,24 @@ def _oracle_groove(ctx, desc, g, qs):
     rp = {"groove": desc}
     pad_key = "pad0" if desc.get("pad_mode", "0") == "0" and not desc["kwargs"].get("pad_angle") else "pad"
     # (1) every vertex of the contour polyline lies on the analytic depth function
-    d = np.asarray(g.local_depth(cp[:, 0].copy()), dtype=float)
+    zq = cp[:, 0].copy()
+    d = np.asarray(g.local_depth(zq), dtype=float)
+    # ... which is a function: it leaves the caller's abscissae alone and answers the same when asked again (otherwise
+    # "the vertex lies on it" would depend on who asked before)
+    if not np.array_equal(zq, cp[:, 0]):
+        ctx.violation("depth-function-modifies-its-argument", "local_depth changed the array of abscissae it was called with", rp)
+    d_again = np.asarray(g.local_depth(cp[:, 0].copy()), dtype=float)
+    if not np.array_equal(d, d_again, equal_nan=True):
+        ctx.violation("depth-function-not-repeatable", "local_depth gives different values for the same abscissae when called twice", rp)
+    # ... and the other representations of the same polyline: the contour line runs through the vertices, the cross-section
+    # is the area the polyline encloses
+    lc = np.asarray(g.contour_line.coords, dtype=float)
+    if lc.shape != cp.shape or not np.all(np.abs(lc - cp) <= tol):
+        ctx.violation("groove-contour-line-differs", "contour_line does not run through contour_points", rp)
+    area, ref_area = float(g.cross_section.area), _shoelace(cp)
+    if not abs(area - ref_area) <= RTOL * L * L:
+        ctx.violation("groove-cross-section-differs",
+                      f"cross_section has the area {area!r}, the contour polyline encloses {ref_area!r}", rp)
     err = np.abs(d - cp[:, 1])
     k = int(np.argmax(err))
     if not err[k] <= tol:
@@ -253,19 +292,41 @@ def _oracle_groove(ctx, desc, g, qs):
 # ------------------------------------------------------------------------------------------------------------------
 # oracle: roll
 # ------------------------------------------------------------------------------------------------------------------
+RADIUS_KEYS = ("nominal_radius", "nominal_diameter", "max_radius")
+RADIUS_MODES = ["nominal_radius", "nominal_radius", "nominal_radius", "nominal_diameter", "max-below-nominal", "max-above-nominal",
+                "max_radius-only"]
+
+
 def _make_roll(rng, g, cp, desc):
-    from pyroll.core import Roll
+    """every way the roll radius can be given: the nominal radius (max_radius defaults to it), the nominal diameter, an
+    explicit max_radius that differs from the nominal radius in either direction (a redressed roll / a roll with collars),
+    max_radius alone.  `R` below is always the radius at the highest point of the groove (the face line y = 0)."""
     L = _size(cp)
     ymax = float(cp[:, 1].max())
     R = ymax + L * 10 ** rng.uniform(math.log10(1.2), 2)
     rmin = R - ymax
     mode = rng.choice(["set", "default"])
-    kw = dict(nominal_radius=R)
+    rmode = rng.choice(RADIUS_MODES)
+    if rmode == "nominal_radius":
+        kw = dict(nominal_radius=R)
+    elif rmode == "nominal_diameter":
+        kw = dict(nominal_diameter=2 * R)
+    elif rmode == "max-below-nominal":
+        kw = dict(nominal_radius=R * rng.uniform(1.002, 1.5), max_radius=R)
+    elif rmode == "max-above-nominal":
+        kw = dict(nominal_radius=R * rng.uniform(0.5, 0.998), max_radius=R)
+    else:
+        kw = dict(max_radius=R)
     if mode == "set":
         kw["contact_length"] = rmin * 10 ** rng.uniform(-3, math.log10(0.9))
     nx = rng.choice([None, rng.randrange(2, 25)])
-    rdesc = dict(kw, mode=mode, nx=nx)
-    return Roll(groove=g, **kw), rdesc
+    rdesc = dict(kw, mode=mode, nx=nx, radius_mode=rmode)
+    return _roll_from_desc(g, rdesc), rdesc
+
+
+def _roll_from_desc(g, rdesc):
+    from pyroll.core import Roll
+    return Roll(groove=g, **{k: rdesc[k] for k in RADIUS_KEYS + ("contact_length",) if rdesc.get(k) is not None})
 
 
 def _grid_queries(rng, xs, zs, n):
@@ -302,33 +363,70 @@ def _si(roll, x, z):
         raise
 
 
-def _oracle_roll(ctx, desc, rdesc, g, roll, queries, symmetric_z=True):
+class _SurfaceRaised(Exception):
+    pass
+
+
+def _read(what, fn):
+    """read one representation of the roll; an exception from inside the implementation is reported as such"""
     try:
-        return _oracle_roll_(ctx, desc, rdesc, g, roll, queries, symmetric_z)
+        return fn()
+    except Exception as ex:
+        import traceback
+        if any("/pyroll/" in f.filename for f in traceback.extract_tb(ex.__traceback__)):
+            raise _SurfaceRaised(f"{what}: {type(ex).__name__}: {ex}") from ex
+        raise
+
+
+def _oracle_roll(ctx, desc, rdesc, g, roll, queries, symmetric_z=True):
+    import numpy as np
+    rp = {"groove": desc, "roll": rdesc}
+    cp0 = np.array(g.contour_points, dtype=float, copy=True)      # the groove BEFORE anything is read on the roll
+    try:
+        grid = _oracle_roll_(ctx, desc, rdesc, g, roll, queries, symmetric_z)
     except _InterpolationRaised as ex:
         ctx.violation("surface-interpolation-raises-inside-grid",
-                      f"surface_interpolation raised for a point inside the grid: {ex}", {"groove": desc, "roll": rdesc})
-        return None
+                      f"surface_interpolation raised for a point inside the grid: {ex}", rp)
+        grid = None
+    except _SurfaceRaised as ex:
+        # the roll is geometrically possible (max_radius above the deepest point of the groove, contact length below the
+        # minimal radius): every representation of its surface exists
+        ctx.violation("roll-surface-raises:" + rdesc.get("radius_mode", "nominal_radius"),
+                      f"a representation of the roll surface cannot be read: {ex}", rp)
+        grid = None
+    # reading the roll's representations leaves the groove's own contour alone (they describe the SAME shape afterwards too)
+    cp1 = np.asarray(g.contour_points, dtype=float)
+    if cp1.shape != cp0.shape or not np.array_equal(cp1, cp0):
+        ctx.violation("groove-contour-changed-by-roll-reads",
+                      "the groove's contour_points differ after the roll's contour / surface grid / interpolation were read", rp)
+    return grid
 
 
 def _oracle_roll_(ctx, desc, rdesc, g, roll, queries, symmetric_z=True):
     import numpy as np
     rp = {"groove": desc, "roll": rdesc}
+    rk = rdesc.get("radius_mode", "nominal_radius")
     cp = np.asarray(g.contour_points, dtype=float)
-    rcp = np.asarray(roll.contour_points, dtype=float)
-    R = float(roll.max_radius)
+    rcp = np.asarray(_read("contour_points", lambda: roll.contour_points), dtype=float)
+    R = float(_read("max_radius", lambda: roll.max_radius))
     L = _size(cp)
     tol = RTOL * max(R, L)
     # roll contour = groove contour
     if rcp.shape != cp.shape or not np.array_equal(rcp, cp):
         ctx.violation("roll-contour-differs", "roll.contour_points is not the groove's contour_points", rp)
         return None
-    lc = np.asarray(roll.contour_line.coords, dtype=float)
+    lc = np.asarray(_read("contour_line", lambda: roll.contour_line).coords, dtype=float)
     if lc.shape != cp.shape or not np.array_equal(lc, cp):
         ctx.violation("roll-contour-line-differs", "roll.contour_line does not run through the groove's contour points", rp)
-    xs = np.asarray(roll.surface_x, dtype=float)
-    zs = np.asarray(roll.surface_z, dtype=float)
-    Y = np.asarray(roll.surface_y, dtype=float)
+    # the groove bottom is the circle of the surface of revolution with the smallest radius
+    rmin = float(_read("min_radius", lambda: roll.min_radius))
+    if not abs(rmin - (R - float(cp[:, 1].max()))) <= tol:
+        ctx.violation("min-radius-not-at-groove-bottom:" + rk,
+                      f"min_radius is {rmin!r}; the deepest contour point ({float(cp[:, 1].max())!r}) is "
+                      f"{R - float(cp[:, 1].max())!r} from the roll axis (max_radius {R!r})", rp)
+    xs = np.asarray(_read("surface_x", lambda: roll.surface_x), dtype=float)
+    zs = np.asarray(_read("surface_z", lambda: roll.surface_z), dtype=float)
+    Y = np.asarray(_read("surface_y", lambda: roll.surface_y), dtype=float)
     if zs.shape != (len(cp),) or not np.array_equal(zs, cp[:, 0]):
         ctx.violation("surface-z-differs", "roll.surface_z is not the abscissa column of the contour", rp)
         return None
@@ -400,6 +498,13 @@ def _oracle_roll_(ctx, desc, rdesc, g, roll, queries, symmetric_z=True):
                 ctx.violation("interpolated-high-point-differs",
                               f"surface_interpolation(0, {z!r}) = {v!r}, the contour polyline is at {ref!r}", dict(rp, z=z))
                 break
+    # a second evaluation on the used roll gives the same surface (nothing is kept from the first one but the cache)
+    roll.reevaluate_cache()
+    xs2 = np.asarray(_read("surface_x (second evaluation)", lambda: roll.surface_x), dtype=float)
+    Y2 = np.asarray(_read("surface_y (second evaluation)", lambda: roll.surface_y), dtype=float)
+    if xs2.shape != xs.shape or Y2.shape != Y.shape or not (np.array_equal(xs2, xs) and np.array_equal(Y2, Y)):
+        ctx.violation("roll-surface-changes-on-reevaluation",
+                      "surface_x / surface_y differ between the first evaluation and the one after reevaluate_cache()", rp)
     return xs, zs, Y
 
 
@@ -481,10 +586,20 @@ def _strip_expected(pts):
     return pts[i: j + 1]
 
 
+def _shoelace(p):
+    import numpy as np
+    p = np.asarray(p, dtype=float)
+    x, y = p[:, 0], p[:, 1]
+    return 0.5 * abs(float(np.dot(x, np.roll(y, -1)) - np.dot(y, np.roll(x, -1))))
+
+
 def _oracle_spline(ctx, sdesc, g, g2, queries):
+    """`sdesc["stage"]` (optional) names the point in the life of the groove at which it is looked at (e.g. after the
+    caller went on using the array the groove was built from); it is appended to every key"""
     import numpy as np
     pts = sdesc["points"]
     rp = {"spline": sdesc}
+    stage = (":" + sdesc["stage"]) if sdesc.get("stage") else ""
     exp = np.array(_strip_expected(pts), dtype=float)
     W = float(exp[-1, 0] - exp[0, 0])
     S = max(W, float(exp[:, 1].max()))
@@ -492,35 +607,51 @@ def _oracle_spline(ctx, sdesc, g, g2, queries):
     cp = np.asarray(g.contour_points, dtype=float)
     # reproduces the polyline: same ordinates, abscissae shifted by one common constant
     if cp.shape != exp.shape:
-        ctx.violation("spline-vertex-count", f"the groove has {len(cp)} vertices, the (boundary-stripped) polyline {len(exp)}", rp)
+        ctx.violation("spline-vertex-count" + stage,
+                      f"the groove has {len(cp)} vertices, the (boundary-stripped) polyline {len(exp)}", rp)
         return
     shift = exp[:, 0] - cp[:, 0]
     if not (np.all(np.abs(cp[:, 1] - exp[:, 1]) <= tol) and np.all(np.abs(shift - shift[0]) <= tol)):
-        ctx.violation("spline-not-the-polyline", "the groove's contour is not a translate of the polyline it was given", rp)
+        ctx.violation("spline-not-the-polyline" + stage, "the groove's contour is not a translate of the polyline it was given" +
+                      (f" ({sdesc['stage']}): contour_points {cp.tolist()!r}" if stage else ""), rp)
         return
     # centred on the middle of its extent
     mid = (float(cp[:, 0].min()) + float(cp[:, 0].max())) / 2
     if not abs(mid) <= tol:
-        ctx.violation("spline-not-centred-on-extent" + (":refined-input" if sdesc.get("is_refined") else ""),
+        ctx.violation("spline-not-centred-on-extent" + (":refined-input" if sdesc.get("is_refined") else "") + stage,
                       f"the groove extends from {cp[:, 0].min()!r} to {cp[:, 0].max()!r}: its middle is at {mid!r}, not 0 "
                       f"(width {W!r})", rp)
     if not abs(float(g.width) - W) <= tol:
-        ctx.violation("spline-width", f"width {g.width!r}, the polyline extends over {W!r}", rp)
+        ctx.violation("spline-width" + stage, f"width {g.width!r}, the polyline extends over {W!r}", rp)
     uw = sdesc.get("usable_width")
     if not abs(float(g.usable_width) - (uw if uw else W)) <= tol:
-        ctx.violation("spline-usable-width", f"usable_width {g.usable_width!r}, expected {(uw if uw else W)!r}", rp)
+        ctx.violation("spline-usable-width" + stage, f"usable_width {g.usable_width!r}, expected {(uw if uw else W)!r}", rp)
     if not abs(float(g.depth) - float(exp[:, 1].max())) <= tol:
-        ctx.violation("spline-depth", f"depth {g.depth!r}, deepest vertex {exp[:, 1].max()!r}", rp)
-    d = np.asarray(g.local_depth(cp[:, 0].copy()), dtype=float)
+        ctx.violation("spline-depth" + stage, f"depth {g.depth!r}, deepest vertex {exp[:, 1].max()!r}", rp)
+    zq = cp[:, 0].copy()
+    d = np.asarray(g.local_depth(zq), dtype=float)
     if not np.all(np.abs(d - cp[:, 1]) <= tol):
-        ctx.violation("spline-vertex-off-depth-function", "a vertex of the spline groove is not on its local_depth", rp)
+        k = int(np.argmax(np.abs(d - cp[:, 1])))
+        ctx.violation("spline-vertex-off-depth-function" + stage,
+                      f"vertex {k} ({float(cp[k, 0])!r}, {float(cp[k, 1])!r}) of the spline groove is not on its local_depth "
+                      f"({float(d[k])!r})", rp)
+    # the other representations of the same shape: the contour line runs through the vertices, the cross-section is the
+    # area between the polyline and the face line
+    lc = np.asarray(g.contour_line.coords, dtype=float)
+    if lc.shape != cp.shape or not np.all(np.abs(lc - cp) <= tol):
+        ctx.violation("spline-contour-line-differs" + stage, "contour_line does not run through contour_points: "
+                      f"{lc.tolist()!r} vs {cp.tolist()!r}", rp)
+    area, ref_area = float(g.cross_section.area), _shoelace(exp)
+    if not abs(area - ref_area) <= RTOL * S * S:
+        ctx.violation("spline-cross-section-differs" + stage,
+                      f"cross_section has the area {area!r}, the polyline it was given encloses {ref_area!r}", rp)
     # depth function = the polyline (in the coordinates of the middle of the extent), also between the vertices
     c = (float(exp[0, 0]) + float(exp[-1, 0])) / 2
     for q in queries:
         ref = float(np.interp(q + c, exp[:, 0], exp[:, 1]))
         v = float(g.local_depth(q))
         if not abs(v - ref) <= tol:
-            ctx.violation("spline-depth-differs" + (":refined-input" if sdesc.get("is_refined") else ""),
+            ctx.violation("spline-depth-differs" + (":refined-input" if sdesc.get("is_refined") else "") + stage,
                           f"local_depth({q!r}) = {v!r}; the polyline, measured from the middle of its extent, is at {ref!r}",
                           dict(rp, z=q))
             break
@@ -539,6 +670,87 @@ def _oracle_spline(ctx, sdesc, g, g2, queries):
                               f"local_depth({q!r}) = {a!r} becomes {b!r} after inserting collinear vertices ({sdesc.get('mode')})",
                               dict(rp2, z=q))
                 break
+
+
+# the caller's side of a spline groove: in which container the polyline is handed over, and what the caller does with that
+# container afterwards (a family of grooves is produced from one working array, one after the other)
+INPUT_KINDS = ["list", "list", "ndarray", "ndarray", "ndarray", "ndarray-view", "tuple"]
+
+
+def _container(kind, points):
+    import numpy as np
+    if kind == "tuple":
+        return tuple((float(a), float(b)) for a, b in points)
+    if kind == "ndarray":
+        return np.array(points, dtype="float64")
+    if kind == "ndarray-view":       # float64, not contiguous: every second row / the first two columns of a larger array
+        big = np.full((2 * len(points), 3), 7.0)
+        big[::2, :2] = points
+        return big[::2, :2]
+    return [[float(a), float(b)] for a, b in points]
+
+
+def _content(container):
+    return [[float(a), float(b)] for a, b in container]
+
+
+def _random_reuse(rng, scale):
+    ops = []
+    for _ in range(rng.randrange(1, 4)):
+        k = rng.choice(["scale-y", "scale-y", "scale", "shift-x", "reverse-y", "rebuild", "rebuild"])
+        if k == "scale-y":
+            ops.append([k, rng.choice([0.75, 0.5, rng.uniform(0.3, 1.5)])])
+        elif k == "scale":
+            ops.append([k, rng.uniform(0.3, 3)])
+        elif k == "shift-x":
+            ops.append([k, scale * rng.uniform(-50, 50)])
+        else:
+            ops.append([k])
+    if ops[-1][0] != "rebuild" and rng.random() < 0.6:
+        ops.append(["rebuild"])
+    if rng.random() < 0.15:
+        ops.append(["zero"])
+    return ops
+
+
+def _apply_reuse(container, op):
+    """what the CALLER does with its own container (never touches the groove)"""
+    import numpy as np
+    if isinstance(container, tuple):
+        return                      # immutable: nothing the caller can do to it
+    rows = range(len(container))
+    if isinstance(container, np.ndarray):
+        if op[0] == "scale-y":
+            container[:, 1] *= op[1]
+        elif op[0] == "scale":
+            container *= op[1]
+        elif op[0] == "shift-x":
+            container[:, 0] += op[1]
+        elif op[0] == "reverse-y":
+            container[:, 1] = container[::-1, 1].copy()
+        elif op[0] == "zero":
+            container[:] = 0
+        return
+    if op[0] == "reverse-y":
+        ys = [container[i][1] for i in rows][::-1]
+    for i in rows:
+        if op[0] == "scale-y":
+            container[i][1] *= op[1]
+        elif op[0] == "scale":
+            container[i][0] *= op[1]
+            container[i][1] *= op[1]
+        elif op[0] == "shift-x":
+            container[i][0] += op[1]
+        elif op[0] == "reverse-y":
+            container[i][1] = ys[i]
+        elif op[0] == "zero":
+            container[i][0] = container[i][1] = 0.0
+
+
+def _fixed_queries(points):
+    exp = _strip_expected(points)
+    half = (exp[-1][0] - exp[0][0]) / 2
+    return [half * (2 * i / 22 - 1) for i in range(23)]
 
 
 # ------------------------------------------------------------------------------------------------------------------
@@ -602,6 +814,14 @@ def _batch_roll(batch, desc, rdesc, g, roll, grid, queries, rng):
     if rdesc["mode"] == "set":
         env["contact_length"] = float(roll.contact_length)
     rp = {"groove": desc, "roll": rdesc}
+    # the translated hooks the radii of the surface come from, on this very roll: min_radius from max_radius and the deepest
+    # contour ordinate; max_radius from the nominal radius when it is not given explicitly
+    ymax = float(roll.contour_line.bounds[3])
+    batch.add(f"roll_min_radius max_radius={bits(R)} contour_line.bounds[3]={bits(ymax)}", "scalar",
+              dict(what="min_radius of the roll", real=float(roll.min_radius), tol=1e-12 * R, replay=rp))
+    if rdesc.get("max_radius") is None:
+        batch.add(f"roll_max_radius nominal_radius={bits(float(roll.nominal_radius))}", "scalar",
+                  dict(what="max_radius of the roll (not given explicitly)", real=R, tol=0.0, replay=rp))
     batch.add(_env_line(env))
     n = (len(xs) + 1) // 4
     batch.add(f"surfx {n} {rdesc['mode']}", "list", dict(what="surface_x", real=[float(v) for v in xs], args=None,
@@ -675,6 +895,16 @@ def _run_batch(ctx, batch):
                     k = int(np.argmax(np.abs(m - p["real"]).max(axis=1)))
                     ctx.disagreement(f"{p['what']} vertex {k}: model {m[k].tolist()!r}, implementation {p['real'][k].tolist()!r}",
                                      dict(p["replay"], vertex=k))
+                else:
+                    ctx.validated()
+            elif kind == "own":
+                t = o.split()
+                if len(t) != 2 or any(v not in ("0", "1") for v in t):
+                    raise ValueError(o)
+                m = (t[0] == "1", t[1] == "1")
+                if m != p["real"]:
+                    ctx.disagreement("spline vertex array ownership (groove's array is the caller's, constructor wrote into the "
+                                     f"caller's container): model {m!r}, implementation {p['real']!r}", p["replay"])
                 else:
                     ctx.validated()
             elif kind == "spline":
@@ -759,7 +989,7 @@ def _check_hypotheses(ctx, g, L):
     return True
 
 
-def _groove_case(ctx, desc, batch, with_model, roll_budget):
+def _groove_case(ctx, desc, batch, with_model, roll_budget, rolls=None, roll_queries=None):
     import numpy as np
     try:
         g = _build_groove(desc)
@@ -787,17 +1017,23 @@ def _groove_case(ctx, desc, batch, with_model, roll_budget):
     if with_model and generic and info is not None:
         _batch_groove(batch, desc, g, qs, info)
     # rolls
-    for _ in range(roll_budget):
-        roll, rdesc = _make_roll(ctx.rng, g, cp, desc)
+    for i_roll in range(roll_budget):
+        if rolls and i_roll < len(rolls):
+            rdesc = rolls[i_roll]
+            roll = _roll_from_desc(g, rdesc)
+        else:
+            roll, rdesc = _make_roll(ctx.rng, g, cp, desc)
         if not np.all(np.diff(cp[:, 0]) > 0):
             ctx.count("contour-not-z-monotone")
         with _ConfigOverride(ROLL_SURFACE_DISCRETIZATION_COUNT=rdesc["nx"]):
-            xs = np.asarray(roll.surface_x, dtype=float)
-            queries = _grid_queries(ctx.rng, xs, cp[:, 0], 14)
+            xs = np.asarray(_read_or_none(lambda: roll.surface_x), dtype=float)
+            queries = _grid_queries(ctx.rng, xs, cp[:, 0], 14) if xs.ndim == 1 and len(xs) else []
+            queries += [(float(x), float(z)) for (x, z) in (roll_queries or [])]
             grid = _oracle_roll(ctx, desc, rdesc, g, roll, queries)
-        ctx.case(["roll", desc["cls"], round(rdesc["nominal_radius"], 9), rdesc.get("contact_length"), rdesc["nx"]],
-                 nontrivial=rdesc["mode"] == "set" or rdesc["nx"] is not None)
+        ctx.case(["roll", desc["cls"], [rdesc.get(k) for k in RADIUS_KEYS], rdesc.get("contact_length"), rdesc["nx"]],
+                 nontrivial=rdesc["mode"] == "set" or rdesc["nx"] is not None or rdesc["radius_mode"] != "nominal_radius")
         ctx.count("roll:" + rdesc["mode"])
+        ctx.count("roll-radius:" + rdesc["radius_mode"])
         if with_model and grid is not None and info is not None and rdesc["nx"] is not None:
             _batch_roll(batch, desc, rdesc, g, roll, grid, queries, ctx.rng)
 
@@ -817,11 +1053,15 @@ def _spline_case(ctx, sdesc, batch, with_model):
             ctx.count("spline-rejected:" + type(ex).__name__)
             return None
 
-    g = build(sdesc["points"])
+    kind = sdesc.get("input") or "list"
+    container = _container(kind, sdesc["points"])
+    g = build(container)
     g2 = build(sdesc["refined"]) if sdesc.get("refined") else None
     ctx.case(["spline", [[round(a, 12), round(b, 12)] for a, b in sdesc["points"]], sdesc.get("mode"),
-              len(sdesc.get("refined") or [])], nontrivial=bool(sdesc.get("refined")))
+              len(sdesc.get("refined") or []), kind, sdesc.get("reuse")],
+             nontrivial=bool(sdesc.get("refined")) or bool(sdesc.get("reuse")))
     ctx.count("spline:" + ("symmetric" if sdesc.get("symmetric") else "asymmetric"))
+    ctx.count("spline-input:" + kind)
     if sdesc.get("touching"):
         ctx.count("spline:touching-face-line-inside")
     if sdesc.get("mode"):
@@ -836,21 +1076,67 @@ def _spline_case(ctx, sdesc, batch, with_model):
         # the refined polyline is itself an input: it must be reproduced and centred on the middle of ITS extent
         _oracle_spline(ctx, dict(points=sdesc["refined"], usable_width=sdesc.get("usable_width"), is_refined=True,
                                  original=sdesc["points"], mode=sdesc.get("mode")), g2, None, queries)
+    # who owns the vertex array (K): the model says whether the groove's array is the caller's and whether the constructor
+    # wrote into the caller's container
+    written = _content(container) != _content(_container("list", sdesc["points"]))
+    shares = isinstance(container, np.ndarray) and bool(np.shares_memory(np.asarray(g.contour_points), container))
     if with_model:
         _batch_spline(batch, sdesc, g, queries[:12])
+        batch.add("splineown " + ("ndarray" if isinstance(container, np.ndarray) else "other"), "own",
+                  dict(real=(shares, written), replay={"spline": sdesc}))
         if g2 is not None:
             _batch_spline(batch, dict(points=sdesc["refined"], usable_width=sdesc.get("usable_width")), g2, queries[:12])
     # a roll on an asymmetric / symmetric spline groove: grid, nodes, symmetry in rolling direction
-    if ctx.rng.random() < 0.3:
+    if ctx.rng.random() < 0.3 or sdesc.get("roll"):
         cp = np.asarray(g.contour_points, dtype=float)
         if np.all(np.diff(cp[:, 0]) > 0):
-            roll, rdesc = _make_roll(ctx.rng, g, cp, sdesc)
+            if sdesc.get("roll"):
+                rdesc = sdesc["roll"]
+                roll = _roll_from_desc(g, rdesc)
+            else:
+                roll, rdesc = _make_roll(ctx.rng, g, cp, sdesc)
             with _ConfigOverride(ROLL_SURFACE_DISCRETIZATION_COUNT=rdesc["nx"]):
-                xs = np.asarray(roll.surface_x, dtype=float)
-                q = _grid_queries(ctx.rng, xs, cp[:, 0], 8)
-                _oracle_roll(ctx, {"cls": "SplineGroove", "kwargs": {}, "points": sdesc["points"]}, rdesc, g, roll, q,
+                xs = np.asarray(_read_or_none(lambda: roll.surface_x), dtype=float)
+                q = _grid_queries(ctx.rng, xs, cp[:, 0], 8) if xs.ndim == 1 and len(xs) else []
+                for extra in sdesc.get("roll_queries") or []:
+                    q.append((float(extra[0]), float(extra[1])))
+                _oracle_roll(ctx, {"cls": "SplineGroove", "kwargs": {}, "points": sdesc["points"],
+                                   "usable_width": sdesc.get("usable_width"), "input": kind}, rdesc, g, roll, q,
                              symmetric_z=False)
             ctx.count("roll-on-spline")
+            ctx.count("roll-radius:" + rdesc.get("radius_mode", "nominal_radius"))
+    # the caller goes on using ITS container (rescales it, builds the next member of a family from it, ...): every groove
+    # built so far still is the polyline it was given at ITS construction, in every representation
+    if sdesc.get("reuse"):
+        if written:
+            ctx.count("spline-constructor-wrote-into-the-callers-container")
+        # the caller's data at the time of each construction, as the caller saw it (before the call)
+        family = [(g, [list(p) for p in sdesc["points"]], 0)]
+        for n_op, op in enumerate(sdesc["reuse"], 1):
+            ctx.count("reuse:" + op[0])
+            if op[0] == "rebuild":
+                given = _content(container)
+                member = build(container)
+                if member is not None:
+                    family.append((member, given, n_op))
+            else:
+                _apply_reuse(container, op)
+        for (member, given, n_op) in family:
+            stage = "after-input-reuse" if n_op == 0 else "family-member-after-input-reuse"
+            _oracle_spline(ctx, dict(points=given, usable_width=sdesc.get("usable_width"), stage=stage, input=kind,
+                                     built_after_op=n_op, first_points=sdesc["points"], reuse=sdesc["reuse"]),
+                           member, None, _fixed_queries(given))
+
+
+def _read_or_none(fn):
+    """a representation the oracle reports on later (`_oracle_roll` reads it again under its own guard)"""
+    try:
+        return fn()
+    except Exception as ex:
+        import traceback
+        if any("/pyroll/" in f.filename for f in traceback.extract_tb(ex.__traceback__)):
+            return []
+        raise
 
 
 def run(ctx):
@@ -862,6 +1148,8 @@ def run(ctx):
     for d in CORPUS_GROOVES:
         _groove_case(ctx, dict(d, pad_mode="30" if d["kwargs"].get("pad_angle") else "0"), batch, with_model, 1)
     for s in CORPUS_SPLINES:
+        _spline_case(ctx, dict(s, mode="corpus"), batch, with_model)
+    for s in CORPUS_SEQUENCES:
         _spline_case(ctx, dict(s, mode="corpus"), batch, with_model)
     n_g = ctx.budget(220, 6000)
     for i in range(n_g):
@@ -875,6 +1163,9 @@ def run(ctx):
             sdesc["usable_width"] = w * rng.uniform(0.5, 0.95)
         if rng.random() < 0.8:
             sdesc["refined"], sdesc["mode"] = _refine(rng, sdesc["points"])
+        sdesc["input"] = rng.choice(INPUT_KINDS)
+        if rng.random() < 0.5:
+            sdesc["reuse"] = _random_reuse(rng, sdesc["scale"])
         _spline_case(ctx, sdesc, batch, with_model and i < ctx.budget(80, 800))
     if with_model:
         _batch_formulas(ctx, batch, ctx.c10_info)
@@ -884,16 +1175,23 @@ def run(ctx):
 
 
 def replay(ctx, data):
+    import random
     r = data.get("replay", data)
     batch = _Batch()
     with_model = bool(getattr(ctx, "model_available", False)) and getattr(ctx, "c10_info", None) is not None
+    ctx.rng = random.Random(0)
+    rq = [(r["x"], r["z"])] if "x" in r and "z" in r else ([(0.0, r["z"])] if "z" in r and "roll" in r else None)
     if "spline" in r:
         s = r["spline"]
-        _spline_case(ctx, dict(points=s["points"], refined=s.get("refined") or r.get("refined"),
-                               usable_width=s.get("usable_width"), mode=s.get("mode") or "replay"), batch, with_model)
-    elif "groove" in r and r["groove"].get("cls") != "SplineGroove":
-        import random
-        ctx.rng = random.Random(0)
-        _groove_case(ctx, r["groove"], batch, with_model, 2)
+        _spline_case(ctx, dict(points=s.get("first_points") or s.get("original") or s["points"],
+                               refined=(s["points"] if s.get("is_refined") else None) or s.get("refined") or r.get("refined"),
+                               usable_width=s.get("usable_width"), mode=s.get("mode") or "replay",
+                               input=s.get("input"), reuse=s.get("reuse")), batch, with_model)
+    elif "groove" in r and r["groove"].get("cls") == "SplineGroove":
+        gd = r["groove"]
+        _spline_case(ctx, dict(points=gd["points"], refined=None, usable_width=gd.get("usable_width"), mode="replay",
+                               input=gd.get("input"), roll=r.get("roll"), roll_queries=rq), batch, with_model)
+    elif "groove" in r:
+        _groove_case(ctx, r["groove"], batch, with_model, 2, rolls=[r["roll"]] if r.get("roll") else None, roll_queries=rq)
     if with_model:
         _run_batch(ctx, batch)
